@@ -539,7 +539,13 @@ func (s *Sim) checkClaimTx(b *blockObs, m pc.MsgClaim, r abci.ResponseDeliverTx,
 		case h < proofHeight:
 			subj = "claim-one-block-before-proof-height"
 		case h > proofHeight:
-			subj = "claim-after-proof-height(parameters-changed-since-session-start)"
+			// the acceptance rule uses the current parameters, the selecting height those of the
+			// session start: after a governance change of the window or the session length the two
+			// drift apart (a recorded finding). Without such a change nothing excuses it.
+			subj = "claim-after-proof-height"
+			if curBps != bps || curWindow != window {
+				subj = "claim-after-proof-height(parameters-changed-since-session-start)"
+			}
 		}
 		s.violate("C31", "leaf-selector-known-at-claim-time", subj, fmt.Sprintf("height %d: claim for session height %d accepted; the leaf is selected by the hash of block %d (window %d x %d blocks), which was proposed no later than the claim's block", h, sh, proofHeight-1, window, bps))
 	}
